@@ -110,6 +110,7 @@ Close(tok) == /\ tok.t = "CLOSE" /\ InBody
 Break(tok) == /\ tok.t = "BREAK" /\ InBody
               /\ ~EndOfBranchRequired /\ ~SwitchWaitsCase
               /\ InRepeat
+              /\ Head(stack).k \in {"switch", "if"}      \* the branch a break ends is a branch of an exclusive choice
               /\ after' = "break"
               /\ Consume(tok)
               /\ UNCHANGED <<phase, stack, names, leaked>>
